@@ -1,8 +1,8 @@
 package rules
 
 import (
-	"go/types"
 	"go/token"
+	"go/types"
 	"strings"
 
 	"gldapverif/an"
@@ -499,7 +499,7 @@ func checkC09(c *Ctx) {
 			R.Unknown("C09-immutable", fname(ci.Parent())+": newRequest", c.pos(ci), "newRequest called from an unexpected place")
 		}
 	}
-	R.Floor("C09-immutable", 3)
+	R.Floor("C09-immutable", 2)
 	// C09-getter
 	for _, ret := range an.Returns(getter) {
 		v := ret.Results[0]
@@ -712,7 +712,7 @@ func checkC12(c *Ctx) {
 		// reports (bool) whether it reserved a place
 		var at ssa.Instruction = ci // the reserving instruction in Run
 		held := an.After(ci)        // from here on the place is held
-		var notHeld *ssa.BasicBlock  // where the helper reported "not reserved"
+		var notHeld *ssa.BasicBlock // where the helper reported "not reserved"
 		if ci.Parent() != m.run && isK && k == 1 && isCall(ci) {
 			if hc, t, f, why := c.reserveHelper(ci, m); hc != nil {
 				at, held, notHeld = hc, an.Point{B: t, I: 0}, f
